@@ -13,7 +13,10 @@ stages:
         SuperNetModule; branch kinds: 'c3' conv3x3, 'c1' conv1x1, 'c5' conv5x5, 'seq' Sequential(conv3x3, BN, ReLU),
         'c3s2' / 'poolconv' / 'convpool' / 'bneck': down-sampling branches (stride-2 conv; pool -> conv1x1; conv3x3 -> pool; 1x1 -> strided dw -> 1x1),
         'blk' user block (conv3x3 -> relu -> conv1x1) ending in a sub-module call, 'fblk' user block ending in a functional relu,
-        'nest' nested user block (blk inside a wrapper), 'dw' depthwise-separable Sequential, 'id' Identity (needs cin == cout)
+        'nest' nested user block (blk inside a wrapper), 'dw' depthwise-separable Sequential, 'id' Identity (needs cin == cout),
+        user blocks with an INTERNAL FORK (the output of the first layer is consumed twice inside the branch):
+        'frkl' h = stem(x); relu(bn(conv(h)) + h)   (the fork node is the LAST operand of the join), 'frkf' relu(h + bn(conv(h))) (first operand),
+        'frkcat' h = stem(x); out(cat([conv(h), h], 1)), 'frkcatf' out(cat([h, conv(h)], 1)), 'nfrk' bn(frkl(x)) (the fork one level down)
 """
 import torch
 import torch.nn as nn
@@ -50,7 +53,60 @@ class Nest(nn.Module):
         return self.bn(self.inner(x))
 
 
+class Fork(nn.Module):
+    """stem conv whose output is consumed twice inside the block: by conv -> bn and by the residual sum that joins them;
+    `fork_last`: the fork node is the last (True) / first (False) operand of the join"""
+    def __init__(self, cin, cout, fork_last):
+        super().__init__()
+        self.fork_last = fork_last
+        self.stem = nn.Conv2d(cin, cout, 3, padding=1)
+        self.conv = nn.Conv2d(cout, cout, 3, padding=1)
+        self.bn = nn.BatchNorm2d(cout)
+
+    def forward(self, x):
+        h = self.stem(x)
+        if self.fork_last:
+            return torch.relu(self.bn(self.conv(h)) + h)
+        return torch.relu(h + self.bn(self.conv(h)))
+
+
+class ForkCat(nn.Module):
+    """the fork feeds a channel concat (joined with conv(h)), followed by a 1x1 conv: the block ends in a sub-module call"""
+    def __init__(self, cin, cout, fork_last):
+        super().__init__()
+        self.fork_last = fork_last
+        self.stem = nn.Conv2d(cin, cout, 1)
+        self.conv = nn.Conv2d(cout, cout, 3, padding=1)
+        self.out = nn.Conv2d(2 * cout, cout, 1)
+
+    def forward(self, x):
+        h = self.stem(x)
+        if self.fork_last:
+            return self.out(torch.cat([self.conv(h), h], dim=1))
+        return self.out(torch.cat([h, self.conv(h)], dim=1))
+
+
+class NestFork(nn.Module):
+    def __init__(self, cin, cout):
+        super().__init__()
+        self.inner = Fork(cin, cout, True)
+        self.bn = nn.BatchNorm2d(cout)
+
+    def forward(self, x):
+        return self.bn(self.inner(x))
+
+
 def make_branch(kind, cin, cout):
+    if kind == 'frkl':
+        return Fork(cin, cout, True)
+    if kind == 'frkf':
+        return Fork(cin, cout, False)
+    if kind == 'frkcat':
+        return ForkCat(cin, cout, True)
+    if kind == 'frkcatf':
+        return ForkCat(cin, cout, False)
+    if kind == 'nfrk':
+        return NestFork(cin, cout)
     if kind == 'c3':
         return nn.Conv2d(cin, cout, 3, padding=1)
     if kind == 'c1':
